@@ -1,2 +1,104 @@
-From Cfg Require Import Harness.C03.
-Theorem C03_stub : True. Proof. exact I. Qed.
+(* C03 Cache recovery delivers the newest visible publication (sequential
+   case; memory stream broker).  Property theorems only; proofs live in
+   Proofs/Recover.v. *)
+From Coq Require Import List NArith ZArith Bool.
+From Cfg Require Import Model.MemStream Model.StreamSpec Model.HistoryCmd Model.Recover
+     Proofs.MemStream Proofs.Recover Harness.C03.
+Import ListNotations.
+Open Scope N_scope.
+
+(* The complete cache-mode decision for EVERY broker state with a well-formed
+   stream (every reachable one), every client position, recovery limit and
+   filter outcome, when the cache-empty handler is absent or reports "not
+   populated": [cache_pick] = the newest publication among the scanned ones
+   (newest first, at most RecoveryMaxPublicationLimit of them; just the newest
+   one when no tags filter is set) that passes the filters. *)
+Theorem C03_decision : forall lim uf filt hnd h ch s off ep meta,
+  h_streams h ch = Some s -> wf_stream s -> hnd = HNone \/ hnd = HNo ->
+  snd (sub_cache lim uf filt hnd h ch off ep meta) =
+  match cache_pick lim uf filt s with
+  | Some p => if same_position s off ep then ROk true [] off (s_epoch s)
+              else ROk true [p] off (s_epoch s)
+  | None => if same_position s off ep then ROk true [] off (s_epoch s)
+            else ROk false [] (s_top s) (s_epoch s)
+  end.
+Proof. exact cache_decision. Qed.
+Print Assumptions C03_decision.
+
+(* At most the single newest publication that passes the server and client
+   tags filters is delivered; nothing else ever is. *)
+Theorem C03_at_most_newest_visible : forall lim uf filt hnd h ch s off ep meta,
+  reachable h -> h_streams h ch = Some s -> hnd = HNone \/ hnd = HNo ->
+  let pubs := res_pubs (snd (sub_cache lim uf filt hnd h ch off ep meta)) in
+  pubs = [] \/ exists p, pubs = [p] /\ newest_vis uf filt s = Some p.
+Proof. exact cache_at_most_newest_visible. Qed.
+Print Assumptions C03_at_most_newest_visible.
+
+(* recovered=true ONLY when the newest publication is present in history or the
+   client holds the current position (the "only if" half of the property). *)
+Theorem C03_recovered_only_if : forall lim uf filt hnd h ch s off ep meta,
+  reachable h -> h_streams h ch = Some s -> hnd = HNone \/ hnd = HNo ->
+  is_recovered (snd (sub_cache lim uf filt hnd h ch off ep meta)) = true ->
+  s_items s <> [] \/ same_position s off ep = true.
+Proof. exact cache_recovered_implies. Qed.
+Print Assumptions C03_recovered_only_if.
+
+(* Without tags filters the report is exact (iff).  [same_position] requires a
+   non-zero offset, see C03_zero_position_refuted. *)
+Theorem C03_recovered_iff_unfiltered : forall lim filt hnd h ch s off ep meta,
+  reachable h -> h_streams h ch = Some s -> hnd = HNone \/ hnd = HNo ->
+  (is_recovered (snd (sub_cache lim false filt hnd h ch off ep meta)) = true <->
+   s_items s <> [] \/ same_position s off ep = true).
+Proof. exact cache_recovered_iff_unfiltered. Qed.
+Print Assumptions C03_recovered_iff_unfiltered.
+
+(* With tags filters: recovered=true iff a scanned publication is visible or the
+   client holds the position - which is WEAKER than "the newest publication is
+   present": see the refutation below. *)
+Theorem C03_recovered_iff_filtered : forall lim filt hnd h ch s off ep meta,
+  reachable h -> h_streams h ch = Some s -> hnd = HNone \/ hnd = HNo ->
+  (is_recovered (snd (sub_cache lim true filt hnd h ch off ep meta)) = true <->
+   (exists p, find (fun it => negb (filt (i_id it))) (cache_scanned lim true s) = Some p) \/
+   same_position s off ep = true).
+Proof. exact cache_recovered_iff_filtered. Qed.
+Print Assumptions C03_recovered_iff_filtered.
+
+Theorem C03_oracle_sound : forall off ep fl full recovered pubs,
+  cache_ok_on off ep fl full recovered pubs = true <-> CacheOn off ep fl full recovered pubs.
+Proof. exact cache_ok_on_sound. Qed.
+Print Assumptions C03_oracle_sound.
+
+(* ---- the "if" half of the property fails on the faithful model (and on the
+   code: finding keys all-filtered / zero-position) ---- *)
+Definition p5 := mkPopts 5 60000 0 0 0 0 0.
+Definition hA := fst (MemStream.run (hub_init 700 0) [Publish 0 1 p5; Publish 0 2 p5]).
+
+(* the newest publication (offset 2 = top) IS in history, the client (at offset
+   1) does not hold the position, but every scanned publication is excluded by
+   the filters: recovered=false is reported *)
+Theorem C03_recovered_iff_refuted :
+  exists s, h_streams hA 0 = Some s /\ s_items s <> [] /\
+    i_off (last (s_items s) (mkItem 0 0)) = s_top s /\
+    same_position s 1 1 = false /\
+    snd (sub_cache 0 true (fun _ => true) HNone hA 0 1 1 0) = ROk false [] 2 1.
+Proof.
+  eexists. split; [vm_compute; reflexivity|]. vm_compute. repeat split; try reflexivity. discriminate.
+Qed.
+
+(* a client presenting (0, current epoch) to an empty stream whose top is 0 does
+   hold the current position, yet recovered=false is reported (cmdOffset > 0 is
+   required by isCacheRecovered) *)
+Definition hB := fst (MemStream.run (hub_init 700 0) [History 0 (mkFilter None (-1) false) 0]).
+Theorem C03_zero_position_refuted :
+  exists s, h_streams hB 0 = Some s /\ s_top s = 0 /\ s_epoch s = 1 /\
+    snd (sub_cache 0 false (fun _ => false) HNone hB 0 0 1 0) = ROk false [] 0 1.
+Proof. eexists. split; [vm_compute; reflexivity|]. vm_compute. repeat split; reflexivity. Qed.
+
+(* non-vacuity of the positive theorems *)
+Example C03_examples :
+  snd (sub_cache 0 false (fun _ => false) HNone hA 0 0 0 0) = ROk true [mkItem 2 2] 0 1 /\
+  snd (sub_cache 0 true (fun id => id =? 2) HNone hA 0 1 1 0) = ROk true [mkItem 1 1] 1 1 /\
+  snd (sub_cache 1 true (fun id => id =? 2) HNone hA 0 1 1 0) = ROk false [] 2 1 /\
+  snd (sub_cache 0 false (fun _ => false) HNone hA 0 2 1 0) = ROk true [] 2 1 /\
+  snd (sub_cache 0 false (fun _ => false) (HPopulate 9 p5) hB 0 0 0 0) = ROk true [mkItem 1 9] 0 1.
+Proof. vm_compute. repeat split; reflexivity. Qed.
